@@ -16,7 +16,7 @@ import (
 
 type verifC01SvcWeights struct {
 	appendOne, appendBatch, retry, deposed, failover, cleanFailover, bump, fence, staleMeta, staleRoute, staleExpected,
-	crash, restart, isolate, cut, heal, drop, wait, tell, burst, loneTail int
+	crash, restart, isolate, cut, heal, drop, wait, tell, burst, loneTail, lostQuorum int
 }
 
 type verifC01SvcOpts struct {
@@ -60,7 +60,7 @@ func verifC01SvcRunCase(rt *rapid.T, k *kit.Case, col *kit.Collector, prop strin
 			}
 			switch v := r.(type) {
 			case verifC01SvcStuck:
-				col.Inconclusive("service sim: " + strings.SplitN(v.why, " on node", 2)[0])
+				col.Inconclusive("service sim: " + v.why)
 				k.SetNonTrivial(false)
 				k.Label("inconclusive case (a call did not return; never a verdict)")
 			case verifC01SvcViolation:
@@ -320,8 +320,12 @@ func verifC01SvcRunScript(rt *rapid.T, k *kit.Case, s *verifC01SvcSim, o verifC0
 			if int(id) > N {
 				continue
 			}
-			if d := deliverJudged(id, c, s.control[c], "initial"); d.err != nil {
-				rt.Fatalf("VERIF-MACHINERY initial ApplyMeta on node %d failed: %v", id, d.err)
+			d := deliverJudged(id, c, s.control[c], "initial")
+			for again := 0; again < 3 && d.err != nil; again++ {
+				d = deliverJudged(id, c, s.control[c], "initial (again)")
+			}
+			if d.err != nil {
+				s.stuck("initial ApplyMeta failed", fmt.Sprintf("%v on node %d", d.err, id))
 			}
 		}
 	}
@@ -334,7 +338,7 @@ func verifC01SvcRunScript(rt *rapid.T, k *kit.Case, s *verifC01SvcSim, o verifC0
 	actions := []action{{"append", w.appendOne}, {"batch", w.appendBatch}, {"retry", w.retry}, {"deposed", w.deposed}, {"failover", w.failover},
 		{"cleanFailover", w.cleanFailover}, {"bump", w.bump}, {"fence", w.fence}, {"staleMeta", w.staleMeta}, {"staleRoute", w.staleRoute},
 		{"staleExpected", w.staleExpected}, {"crash", w.crash}, {"restart", w.restart}, {"isolate", w.isolate}, {"cut", w.cut}, {"heal", w.heal},
-		{"drop", w.drop}, {"wait", w.wait}, {"tell", w.tell}, {"burst", w.burst}, {"loneTail", w.loneTail}}
+		{"drop", w.drop}, {"wait", w.wait}, {"tell", w.tell}, {"burst", w.burst}, {"loneTail", w.loneTail}, {"lostQuorum", w.lostQuorum}}
 	var bag []string
 	for _, a := range actions {
 		for i := 0; i < a.w; i++ {
@@ -401,6 +405,16 @@ func verifC01SvcRunScript(rt *rapid.T, k *kit.Case, s *verifC01SvcSim, o verifC0
 			if len(cands) == 0 {
 				continue
 			}
+			// prefer appends whose outcome is still open
+			var open []uint64
+			for _, id := range cands {
+				if !s.msgs[id].acked {
+					open = append(open, id)
+				}
+			}
+			if len(open) > 0 && rapid.IntRange(0, 3).Draw(rt, "retryOpen") > 0 {
+				cands = open
+			}
 			id := cands[rapid.IntRange(0, len(cands)-1).Draw(rt, "retryOf")]
 			m := s.msgs[id]
 			msgs := make([]ch.Message, len(m.group))
@@ -416,6 +430,32 @@ func verifC01SvcRunScript(rt *rapid.T, k *kit.Case, s *verifC01SvcSim, o verifC0
 				}
 			} else if acked > 0 {
 				s.flags["exact retry of an acknowledged append acknowledged again"] = true
+			}
+		case "lostQuorum":
+			// every follower exchange of one append is lost (request, or response
+			// after the follower made it durable): the caller sees a failure, the
+			// exact retry must resolve it
+			n := informedLeader(c)
+			if n == nil {
+				continue
+			}
+			for _, f := range s.nodes {
+				if f.id != n.id {
+					s.armDrop(f.id, replication.ExchangeReplicate, rapid.Bool().Draw(rt, "dropResponse"), 1)
+				}
+			}
+			e, le := expectedOf(n, c)
+			msgs := s.newMessages(c, rapid.IntRange(1, 2).Draw(rt, "nmsg"), []byte("lostq"))
+			acked, _ := submit(n, c, msgs, e, le)
+			s.clearDrops()
+			if acked == 0 && s.msgs[msgs[0].MessageID].ambiguous {
+				s.flags["append failed because every follower exchange was lost"] = true
+				if rapid.Bool().Draw(rt, "retryNow") {
+					if again, _ := s.appendOn(n.id, c, msgs, e, le); again > 0 {
+						st.acks += again
+						s.flags["ambiguous append acknowledged by an exact retry"] = true
+					}
+				}
 			}
 		case "deposed":
 			n := verifC01SvcDrawNode(rt, s, "deposedNode", func(n *verifC01SvcNode) bool {
@@ -734,7 +774,10 @@ func verifC01SvcRunScript(rt *rapid.T, k *kit.Case, s *verifC01SvcSim, o verifC0
 				firstAttempt[msgs[0].MessageID] = attempt{node: n.id, incarnation: incarnation[n.id], under: verifC01SvcMetaTag(n.known[c])}
 				calls[i] = s.prepareAppend(n.id, c, msgs, e, le)
 			}
-			kind := rapid.IntRange(0, 3).Draw(rt, "burstMeta")
+			kind := rapid.IntRange(0, 4).Draw(rt, "burstMeta")
+			if kind == 4 && outCount() >= N-Q {
+				kind = 0
+			}
 			delay := time.Duration(rapid.IntRange(0, 3).Draw(rt, "burstDelay")) * 300 * time.Microsecond
 			svc := n.svc
 			var wg sync.WaitGroup
@@ -767,6 +810,15 @@ func verifC01SvcRunScript(rt *rapid.T, k *kit.Case, s *verifC01SvcSim, o verifC0
 				next.LeaderEpoch++
 				next.RouteGeneration++
 				next.WriteFence = ch.WriteFence{}
+			}
+			if kind == 4 {
+				// the leader process dies while appends are in flight: whatever was
+				// acknowledged before the process went away must survive
+				time.Sleep(delay)
+				s.crash(n.id)
+				incarnation[n.id]++
+				s.flags["crash"] = true
+				s.flags["leader crashed with appends in flight"] = true
 			}
 			raced := next.RouteGeneration != 0
 			if raced {
@@ -915,7 +967,7 @@ func TestVerifC01ServiceFailover(t *testing.T) {
 		verifC01SvcRunCase(rt, k, col, "C01", cfg, func(s *verifC01SvcSim) {
 			s.enabledOnly(map[string]bool{"C01": true})
 			w := verifC01SvcWeights{appendOne: 10, appendBatch: 4, retry: 2, deposed: 3, failover: 6, cleanFailover: 7, bump: 1, fence: 1, staleMeta: 1, staleRoute: 1,
-				staleExpected: 1, crash: 3, restart: 5, isolate: 3, cut: 2, heal: 2, drop: 3, wait: 2, tell: 2, burst: 2, loneTail: 3}
+				staleExpected: 1, crash: 3, restart: 5, isolate: 3, cut: 2, heal: 2, drop: 3, wait: 2, tell: 2, burst: 2, loneTail: 3, lostQuorum: 3}
 			st := verifC01SvcRunScript(rt, k, s, verifC01SvcOpts{enabled: map[string]bool{"C01": true}, weights: w, steps: kit.Scale("C01SVCSTEPS", 24, 40)})
 			k.SetNonTrivial(st.nontrivialC01 && s.flags["ledger checked on a ready leader"])
 			verifC01SvcLabels(k, cfg, st)
@@ -932,7 +984,7 @@ func TestVerifC02ServiceReplicas(t *testing.T) {
 		verifC01SvcRunCase(rt, k, col, "C02", cfg, func(s *verifC01SvcSim) {
 			s.enabledOnly(map[string]bool{"C02": true})
 			w := verifC01SvcWeights{appendOne: 10, appendBatch: 4, retry: 2, deposed: 3, failover: 4, cleanFailover: 3, bump: 1, fence: 1, staleMeta: 0, staleRoute: 1,
-				staleExpected: 0, crash: 2, restart: 4, isolate: 3, cut: 3, heal: 3, drop: 5, wait: 2, tell: 2, burst: 2, loneTail: 6}
+				staleExpected: 0, crash: 2, restart: 4, isolate: 3, cut: 3, heal: 3, drop: 5, wait: 2, tell: 2, burst: 2, loneTail: 6, lostQuorum: 3}
 			st := verifC01SvcRunScript(rt, k, s, verifC01SvcOpts{enabled: map[string]bool{"C02": true}, weights: w, steps: kit.Scale("C02SVCSTEPS", 24, 40)})
 			k.SetNonTrivial(s.flags["replicas with different log ends at a check"] && s.flags["committed-read observation recorded"])
 			verifC01SvcLabels(k, cfg, st)
@@ -950,7 +1002,7 @@ func TestVerifC04ServiceAuthority(t *testing.T) {
 		verifC01SvcRunCase(rt, k, col, "C04", cfg, func(s *verifC01SvcSim) {
 			s.enabledOnly(map[string]bool{"C04": true})
 			w := verifC01SvcWeights{appendOne: 8, appendBatch: 2, retry: 1, deposed: 4, failover: 6, cleanFailover: 1, bump: 2, fence: 5, staleMeta: 6, staleRoute: 4,
-				staleExpected: 5, crash: 1, restart: 2, isolate: 1, cut: 1, heal: 2, drop: 1, wait: 1, tell: 3, burst: 4, loneTail: 1}
+				staleExpected: 5, crash: 1, restart: 2, isolate: 1, cut: 1, heal: 2, drop: 1, wait: 1, tell: 3, burst: 4, loneTail: 1, lostQuorum: 1}
 			st := verifC01SvcRunScript(rt, k, s, verifC01SvcOpts{enabled: map[string]bool{"C04": true}, weights: w, steps: kit.Scale("C04SVCSTEPS", 24, 40)})
 			k.SetNonTrivial(st.staleRefused > 0 || st.staleExpectedRefused > 0 || st.fencedRefused > 0)
 			k.LabelIf(st.staleRefused > 0, "stale metadata refused")
